@@ -123,6 +123,10 @@ func realDecode(phrase string) (e [16]byte, err error, pan string) {
 
 func realChecksum(e [16]byte) uint64 { return wallet.VerifBIP39Checksum(&e) }
 
+// errClass is what the error text says, for the distribution in the evidence only. Nothing is
+// judged by it (the property does not fix which of several applicable errors a malformed phrase
+// gets, in which order the validations run, or how errors are worded): the correspondence and
+// the monitors compare accept / reject and the entropy.
 func errClass(err error) int {
 	switch s := err.Error(); {
 	case strings.HasPrefix(s, "wrong number of words"):
@@ -235,6 +239,15 @@ func (h *h20) checkDecode(ts []token, toCoq bool, tag string) decObs {
 		h.res.Count("decode-result:ok")
 	default:
 		h.res.Count(fmt.Sprintf("decode-result:err-class-%d", o.class))
+		// observation, never judged: does the reported error name a defect the phrase has?
+		switch {
+		case o.class == 0:
+			h.res.Count("observed:error-text-not-classified")
+		case o.class == 1 && len(ts) != 12, o.class == 2 && !allKnown(ts), o.class == 3 && wellformed:
+			h.res.Count("observed:error-names-a-defect-of-the-phrase")
+		default:
+			h.res.Count("observed:error-names-no-defect-of-the-phrase")
+		}
 	}
 	if kind != "" {
 		small := shrinkTokens(h, ts, func(x []token) bool { _, k, _ := h.decodeOnce(x); return k == kind })
@@ -255,6 +268,15 @@ func (h *h20) checkDecode(ts []token, toCoq bool, tag string) decObs {
 		h.addCase(fmt.Sprintf("CDec %s %d %d %d (%s)", coqTokens(ts), h0, l0, c, o.coq()))
 	}
 	return o
+}
+
+func allKnown(ts []token) bool {
+	for _, t := range ts {
+		if t.Idx < 0 {
+			return false
+		}
+	}
+	return true
 }
 
 func (h *h20) checkDecodeIdx(idx [12]int, toCoq bool, tag string) decObs {
